@@ -62,8 +62,6 @@ Definition w_enum_plain := mkdecl "VcEnumPlain" [mkcol "e" (KEnum [Some (s2l "a"
 Definition w_fk_opts := mkdecl "VcFkOpts" [mkcol "other" (KFk other_target CTrue None) true (Some true) false None].
 (* any table at all *)
 Definition w_plain := mkdecl "VcPlain" [mkcol "n" (KInt IInt None false false) false None false None].
-(* EnumCol with a backslash in a value *)
-Definition w_enum_bs := mkdecl "VcEnumBs" [mkcol "e" (KEnum [Some [99; 92; 100]; Some (s2l "z")]) false None false None].
 
 Ltac refute_full w :=
   let H := fresh "H" in
@@ -100,46 +98,41 @@ Proof. intros cp dc Hv Hg Hr. apply fk_action_partial; auto. Qed.
 Lemma fk_action_mysql : fk_action_full Mysql.
 Proof. intros cp dc Hv Hg Hr. apply fk_action_partial; auto. Qed.
 
-(* sqlite: a word directly followed by a string literal is a syntax error *)
-Fixpoint word_then_literal (l : list tok) : bool :=
-  match l with
-  | W _ :: ((Lit _ :: _) as r) => true
-  | _ :: r => word_then_literal r
-  | [] => false
-  end.
+(* ------------------------------------------------------------------ enum values: one ANSI literal each *)
+Lemma unq_qq : forall r, unq_ansi (c_q :: c_q :: r) = option_map (cons c_q) (unq_ansi r).
+Proof. reflexivity. Qed.
+Lemma unq_other : forall c r, (c =? c_q) = false -> unq_ansi (c :: r) = option_map (cons c) (unq_ansi r).
+Proof. intros c r E. cbn [unq_ansi]. rewrite E. reflexivity. Qed.
 
-Lemma sqlite_enum_refuted :
-  exists dc toks, valid Sqlite dc = true /\ create_table Sqlite no_caps dc = Some toks
-                  /\ word_then_literal toks = true /\ sqlite_accepts dc = false.
-Proof. exists w_enum_bs. eexists. repeat split; vm_compute; reflexivity. Qed.
-
-(* escape-free enum values never produce that shape inside the value list *)
-Lemma lit_toks_plain : forall d v, e_prefixed d v = false ->
-  lit_toks d v = match v with None => [kw "NULL"] | Some s => [Lit (snd (sqlrepr_str (enum_conv d) s))] end.
+Lemma unq_ansi_ok : forall s, unq_ansi (flat_map esc_ansi s ++ [c_q]) = Some s.
 Proof.
-  intros d v H. unfold lit_toks, e_prefixed in *. destruct v as [s|]; [|reflexivity].
-  destruct (sqlrepr_str (enum_conv d) s) as [e body]. cbn in H. subst e. reflexivity.
+  induction s as [|c s IH]; [reflexivity|].
+  cbn [flat_map]. unfold esc_ansi at 1. destruct (c =? c_q) eqn:E.
+  - apply N.eqb_eq in E. subst c. change ([c_q; c_q] ++ flat_map esc_ansi s) with (c_q :: c_q :: flat_map esc_ansi s).
+    rewrite <- !app_comm_cons. rewrite unq_qq, IH. reflexivity.
+  - change ([c] ++ flat_map esc_ansi s) with (c :: flat_map esc_ansi s).
+    rewrite <- app_comm_cons. rewrite (unq_other c _ E), IH. reflexivity.
 Qed.
 
-(* ------------------------------------------------------------------ one-sided join *)
-Definition one_sided (a b : decl) (jb : joindecl) : Prop :=
-  d_joins a = [] /\ d_joins b = [jb] /\ j_kind jb = JRelated /\ j_create jb = true
-  /\ j_other_class jb = d_class a /\ str_gtb (d_class b) (d_class a) = true.
-
-(* full strength would be: some class creates the link table *)
-Lemma join_one_sided_refuted : forall a b jb, one_sided a b jb ->
-  joins_to_create a = [] /\ joins_to_create b = [].
+(* for every dialect whose DDL uses the ANSI converter the value is one literal token, and
+   an ANSI lexer reads the value back from it *)
+Lemma enum_literal_ansi : forall d s, enum_conv d = ConvAnsi ->
+  exists body, lit_toks d (Some s) = [Lit body] /\ unquote_ansi body = Some s.
 Proof.
-  intros a b jb (A & B & K & C & O & G). unfold joins_to_create. rewrite A, B. split; [reflexivity|].
-  cbn [filter]. unfold creates_link. rewrite K, C, O, G. reflexivity.
+  intros d s H. unfold lit_toks. rewrite H. cbn [sqlrepr_str].
+  eexists. split; [reflexivity|]. cbn [unquote_ansi]. rewrite N.eqb_refl. apply unq_ansi_ok.
 Qed.
+Lemma enum_conv_ansi : forall d, In d [Sqlite; Sybase; Mssql; Firebird] -> enum_conv d = ConvAnsi.
+Proof. intros d H. cbn in H. destruct H as [H|[H|[H|[H|[]]]]]; subst; reflexivity. Qed.
 
+(* ------------------------------------------------------------------ one-sided join: witness *)
 Definition join_a := mkdecl "VcAa" [].
 Definition join_b :=
   {| d_class := s2l "VcBb"; d_table := None; d_idname := None; d_idtype := IdInt; d_idsize := SzNone;
      d_style := default_style; d_cols := []; d_indexes := [];
      d_joins := [{| j_kind := JRelated; j_other_class := s2l "VcAa"; j_other_table := s2l "vc_aa";
-                    j_inter := None; j_joincol := None; j_othercol := None; j_create := true |}] |}.
+                    j_inter := None; j_joincol := None; j_othercol := None; j_create := true;
+                    j_other_creates := [] |}] |}.
 
 (* ------------------------------------------------------------------ evolution: the deviations *)
 Definition empty_db := {| db_tables := []; db_indexes := [] |}.
@@ -156,26 +149,12 @@ Definition w_evo_state : evo_state :=
                                {| t_name := t_name t; t_cols := t_cols t; t_rows := [[1; 100; 101]%Z] |});
                 db_indexes := db_indexes db |} |}.
 
-(* full strength: after ANY addColumn/delColumn the class's columns are the table's columns *)
-Definition evolution_full : Prop :=
-  forall s op t, evo_wf s -> the_table s = Some t ->
-  exists t', the_table (fst (evo_step s op)) = Some t'
-             /\ t_cols t' = class_cols (e_decl (fst (evo_step s op))).
-
 Lemma w_evo_wf : evo_wf w_evo_state.
 Proof. eexists. repeat split; vm_compute; reflexivity. Qed.
 
-Lemma evolution_refuted : ~ evolution_full.
-Proof.
-  intro H.
-  destruct (H w_evo_state (EAdd (mkcol "c" (KInt IInt None false false) true None false None)) _ w_evo_wf eq_refl)
-    as (t' & A & B).
-  vm_compute in A. inversion A; subst t'. vm_compute in B. discriminate B.
-Qed.
-
 (* the declared index does not survive delColumn *)
 Lemma evolution_index_refuted :
-  exists s op, evo_wf s /\ op_ok op = true
+  exists s op, evo_wf s /\ op_ok (e_decl s) op = true
     /\ existsb (fun ix => str_eqb (snd ix) (table_of (e_decl s))) (db_indexes (e_db s)) = true
     /\ d_indexes (e_decl (fst (evo_step s op))) <> []
     /\ db_indexes (e_db (fst (evo_step s op))) = [].
